@@ -220,7 +220,7 @@ def tlc(sc, module, cfg=None, workers=None, timeout=600, extra=None, heap="8g",
     if "Model checking completed. No error has been found" in r.out or \
        (simulate and p.returncode == 0):
         r.ok = True
-    m = re.search(r"Error: (Invariant .* is violated|Temporal properties were violated|"
+    m = re.search(r"Error: (Invariant .* is violated|Temporal propert[^\n]* violated|"
                   r"Action property .* is violated|Deadlock reached)[^\n]*", r.out)
     if m:
         r.violation = m.group(0)
@@ -289,7 +289,7 @@ class Report:
             os.makedirs(rdir, exist_ok=True)
             seen = set()
             for sig, desc, rp in viol:
-                if sig in seen:
+                if sig in seen or len(seen) >= 8:
                     continue
                 seen.add(sig)
                 path = os.path.join(rdir, "%s-%s.json" % (self.prop, re.sub(r"[^A-Za-z0-9_.-]", "_", sig)[:60]))
